@@ -216,6 +216,13 @@ def make_yield(expected_off):
     return on_yield
 
 
+def ghost_init(ev, **fields):
+    """ghost statement at function entry: (re)initialise the bookkeeping fields of the emission ghost `out`"""
+    out = ev.st.obj(ev.st.ghost["out"])
+    for k, v in fields.items():
+        out.fields[k] = v
+
+
 COMMON_REQ = [
     "self.chunk_size >= 1", "file_size >= 0", "fsize == file_size",
     "tr.n_start == 0", "out.out_len == 0", "out.n_yield == 0", "out.opened == 0",
@@ -243,7 +250,8 @@ W_HANDLE_ALL = Contract(
     params={"self": self_t(WFR), "send_header_only": Bool, "file_size": Int,
             "start_response": TFunc(start_response_stub, "start_response")},
     ghosts={"tr": TR_T, "out": OUT_T, "fsize": Int},
-    requires=COMMON_REQ + ["out.part_off == 0", "out.cur_end == file_size"],
+    requires=COMMON_REQ,
+    setup=lambda ev: ghost_init(ev, part_off=VInt(0), cur_end=ev.frame.env["file_size"]),
     defs=HDEFS, ufuncs=HUF, consts=wsgi_consts(),
     stubs={"open": open_stub}, stub_methods=FILE_METHODS,
     on_yield=make_yield(lambda ev, out: out.fields["out_len"].t), yield_mods=("out",),
@@ -272,6 +280,8 @@ def register_handlers(reg):
     reg.add(W_HANDLE_ALL)
     reg.add(W_HANDLE_SINGLE)
     reg.add(W_HANDLE_SEVERAL)
+    for c in (GENERATE_ETAG, JUDGE_IF_RANGE, W_CALL):
+        reg.add(c)
 
 
 W_HANDLE_SINGLE = Contract(
@@ -279,7 +289,8 @@ W_HANDLE_SINGLE = Contract(
     params={"self": self_t(WFR), "send_header_only": Bool, "file_size": Int,
             "start_response": TFunc(start_response_stub, "start_response"), "start": Int, "end": Int},
     ghosts={"tr": TR_T, "out": OUT_T, "fsize": Int},
-    requires=COMMON_REQ + ["0 <= start and start < end and end <= file_size", "out.part_off == start", "out.cur_end == end"],
+    requires=COMMON_REQ + ["0 <= start and start < end and end <= file_size"],
+    setup=lambda ev: ghost_init(ev, part_off=ev.frame.env["start"], cur_end=ev.frame.env["end"]),
     defs=HDEFS, ufuncs=HUF, consts=wsgi_consts(),
     stubs={"open": open_stub}, stub_methods=FILE_METHODS,
     on_yield=make_yield(lambda ev, out: out.fields["part_off"].t), yield_mods=("out",),
@@ -381,13 +392,13 @@ W_HANDLE_SEVERAL = Contract(
             "start_response": TFunc(start_response_stub, "start_response"), "ranges": List(Tup(Int, Int))},
     ghosts={"tr": TR_T, "out": OUT_T, "fsize": Int},
     requires=COMMON_REQ + ["forall(k, 0, len(ranges), 0 <= ranges[k][0] and ranges[k][0] < ranges[k][1] and ranges[k][1] <= file_size)",
-                           "out.part_off == out.cur_end", "out.phase == 0", "out.n_parts == 0"],
+                           ],
+    setup=lambda ev: ghost_init(ev, part_off=VInt(0), cur_end=VInt(0), phase=VInt(0), n_parts=VInt(0)),
     defs=HDEFS, ufuncs=HUF, consts=wsgi_consts(),
     stubs={"open": open_stub, "random_choices": random_choices_stub}, stub_methods=FILE_METHODS,
     on_yield=several_yield, yield_mods=("out",),
     modifies=["self.headers._dict"], ghost_modifies=["tr", "out"],
-    raises={"ValueError": "unclean(self.content_type)"},
-    raises_ensures={"ValueError": {"ensures": ["out.n_yield == 0 and out.opened == 0"]}},
+    raises={},   # no header value of this path is caller-controlled: nothing may escape
     ensures={
         "start.once": "tr.n_start == 1",
         "status": "tr.status == status_line(206)",
@@ -413,4 +424,114 @@ W_HANDLE_SEVERAL = Contract(
             "hl_get(tr.hl, 'content-length') == str(content_length)", "hl_has(tr.hl, 'content-length')"],
     },
     assumptions=["A-fs-1", "A-fs-2", "A-server", "A-status-table", "A-list-headers", "A-random", "A-fold-ext"],
+)
+
+
+# =========================================================================== dispatch
+from contracts import c03 as _c03  # noqa
+
+ENV_T = Dict(REQUEST_METHOD=Str, HTTP_RANGE=Maybe_(Str), HTTP_IF_RANGE=Maybe_(Str))
+
+
+def etag_of(stat_ref_t):
+    return ufunc("etag_of", opaque_sort("Float"), I, S)
+
+
+def generate_etag_returns(ev, env):
+    """generate_etag at a call site: a function of (st_mtime, st_size) only (A-sha-1: treated as uninterpreted)"""
+    st_ = ev.st.obj(env["stat_result"])
+    return VStr(ufunc("etag_of", opaque_sort("Float"), I, S)(st_.fields["st_mtime"].t, st_.fields["st_size"].t))
+
+
+GENERATE_ETAG = Contract(
+    id="generate_etag", file=R, qualname="FileResponseMixin.generate_etag", props=["C02", "C14"],
+    params={"stat_result": STAT_T}, returns=generate_etag_returns, bodyless=True,
+    notes="sha1(f'{mtime}-{size}') is summarised as an uninterpreted function of (mtime, size) (A-sha-1)",
+    assumptions=["A-sha-1"],
+)
+
+
+def formatdate_stub(ev, args, kwargs, node):
+    """email.utils.formatdate(t, usegmt=True): a function of t (A-fmt-1)"""
+    USED.add("A-fmt-1")
+    return VStr(ufunc("httpdate", opaque_sort("Float"), S)(args[0].t))
+
+
+JUDGE_IF_RANGE = Contract(
+    id="judge_if_range", file=R, qualname="FileResponseMixin.judge_if_range", props=["C02"],
+    params={"cls": Opaque("Class"), "if_range_raw_line": Str, "stat_result": STAT_T},
+    returns=Bool,
+    ufuncs={"etag_of": ([Opaque("Float"), Int], Str), "httpdate": ([Opaque("Float")], Str)},
+    stubs={"formatdate": formatdate_stub, "cls.generate_etag": lambda ev, a, k, n: generate_etag_returns(ev, {"stat_result": a[0]})},
+    ensures={"iff": "result == (if_range_raw_line == '\"' + etag_of(stat_result.st_mtime, stat_result.st_size) + '\"' "
+                    "or if_range_raw_line == httpdate(stat_result.st_mtime))"},
+    canaries={"always": "result"},
+    assumptions=["A-sha-1", "A-fmt-1"],
+)
+
+CALL_DEFS = dict(HDEFS)
+CALL_DEFS.update(_c03.DEFS)
+CALL_DEFS.update({
+    "size()": "self.stat_result.st_size",
+    "head()": "environ['REQUEST_METHOD'] == 'HEAD'",
+    "has_range()": "has(environ, 'HTTP_RANGE')",
+    "if_range_ok()": "not has(environ, 'HTTP_IF_RANGE') or environ['HTTP_IF_RANGE'] == '\"' + "
+                     "etag_of(self.stat_result.st_mtime, self.stat_result.st_size) + '\"' or "
+                     "environ['HTTP_IF_RANGE'] == httpdate(self.stat_result.st_mtime)",
+    "honoured()": "has_range() and if_range_ok()",
+    "acceptable()": "bytes_unit() and some_spec() and not some_unsat() and not some_malformed()",
+})
+CALL_UF = dict(HUF)
+CALL_UF.update({"etag_of": ([Opaque("Float"), Int], Str), "httpdate": ([Opaque("Float")], Str),
+                "int_of": ([Str], Int), "int_ok": ([Str], Bool)})
+
+
+def call_consts(range_expr):
+    d = wsgi_consts()
+    from pyvc.contract import spec_value
+    d["range_raw_line"] = lambda ev: spec_value(ev, range_expr)
+    d["max_size"] = lambda ev: spec_value(ev, "self.stat_result.st_size")
+    return d
+
+
+def call_yield(ev, v, node):
+    """the error path yields one chunk itself (everything else comes from the handlers' contracts)"""
+    st = ev.st
+    c = ev.frame.root().contract
+    out = st.obj(st.ghost["out"])
+    tr = st.obj(st.ghost["tr"])
+    st.oblige("%s/yield.bytes" % c.id, isinstance(v, VStr) and v.isbytes, line=getattr(node, "lineno", 0))
+    st.oblige("%s/trace.started_before_yield" % c.id, tr.fields["n_start"].t == 1, line=getattr(node, "lineno", 0))
+    out.fields["out_len"] = VInt(out.fields["out_len"].t + z3.Length(v.t))
+    out.fields["n_yield"] = VInt(out.fields["n_yield"].t + 1)
+
+
+W_CALL = Contract(
+    id="wsgi.FileResponse.__call__", file=W, qualname="FileResponse.__call__", props=["C02", "C05", "C12"], generator=True,
+    params={"self": self_t(WFR), "environ": ENV_T, "start_response": TFunc(start_response_stub, "start_response")},
+    ghosts={"tr": TR_T, "out": OUT_T, "fsize": Int, "specs": List(Tup(Str, Str)), "x": Int},
+    requires=["self.chunk_size >= 1", "self.stat_result.st_size >= 0", "fsize == self.stat_result.st_size",
+              "tr.n_start == 0", "out.out_len == 0", "out.n_yield == 0", "out.opened == 0",
+              _c03.PARSE_RANGE.requires[1]],
+    defs=CALL_DEFS, ufuncs=CALL_UF, consts=call_consts("environ['HTTP_RANGE']"),
+    on_yield=call_yield, yield_mods=("out",),
+    modifies=["self.headers._dict"], ghost_modifies=["tr", "out"],
+    raises={"ValueError": "unclean(self.content_type)"},
+    raises_ensures={"ValueError": {"ensures": ["out.n_yield == 0 and out.opened == 0 and tr.n_start == 0"]}},
+    ensures={
+        "start.once": "tr.n_start == 1",
+        "full.when_not_honoured": "implies(not honoured(), tr.status == status_line(200) and "
+                                  "hdr_is('content-length', str(size())) and out.out_len == (0 if head() else size()))",
+        "partial.when_honoured": "implies(honoured() and acceptable(), tr.status == status_line(206) and "
+                                 "(head() or str(out.out_len) == hl_get(tr.hl, 'content-length')))",
+        "reject.when_honoured": "implies(honoured() and not acceptable(), "
+                                "(tr.status == status_line(400) or tr.status == status_line(416)) and "
+                                "out.opened == 0 and out.n_yield == 1)",
+        "reject.416": "implies(tr.status == status_line(416), hl_has(tr.hl, 'Content-Range') and "
+                      "hl_get(tr.hl, 'Content-Range') == '*/' + str(size()) or not honoured() or acceptable())",
+        "head.empty": "implies(head() and (not honoured() or acceptable()), out.out_len == 0 and out.opened == 0)",
+    },
+    axioms=["forall(a, forall(b, implies(status_line(a) == status_line(b), a == b)))"],
+    assumptions=["A-status-table", "A-server", "A-re-1", "A-int-1"],
+    canaries={"never_partial": "tr.status != status_line(206)"},
 )
